@@ -90,14 +90,7 @@ func read_atom(rdr *tokenReader) (MalType, error) {
 		}
 		return int(i), nil
 	case scanner.String:
-		str := (*token)[1 : len(*token)-1]
-		return strings.Replace(
-			strings.Replace(
-				strings.Replace(
-					strings.Replace(str, `\\`, "\u029e", -1),
-					`\"`, `"`, -1),
-				`\n`, "\n", -1),
-			"\u029e", "\\", -1), nil
+		return unescape((*token)[1 : len(*token)-1]), nil
 	case scanner.RawString:
 		if *token == "¬" {
 			return nil, lisperror.NewLispError(errors.New("expected '¬', got EOF"), tokenStruct.GetPosition())
@@ -128,6 +121,32 @@ func read_atom(rdr *tokenReader) (MalType, error) {
 			Cursor: tokenStruct.GetPosition(),
 		}, nil
 	}
+}
+
+// unescape undoes the printer's escaping (\\, \" and \n) in one left to right
+// pass; every other character, and every other escape, is kept as it is
+func unescape(str string) string {
+	var b strings.Builder
+	for i := 0; i < len(str); i++ {
+		if str[i] == '\\' && i+1 < len(str) {
+			switch str[i+1] {
+			case '\\':
+				b.WriteByte('\\')
+				i++
+				continue
+			case '"':
+				b.WriteByte('"')
+				i++
+				continue
+			case 'n':
+				b.WriteByte('\n')
+				i++
+				continue
+			}
+		}
+		b.WriteByte(str[i])
+	}
+	return b.String()
 }
 
 func read_list(rdr *tokenReader, start string, end string, placeholderValues *HashMap, ns EnvType) (MalType, error) {
